@@ -10,7 +10,8 @@ if [ ! -d $S/repo ]; then git -C /repo worktree add --detach $S/repo HEAD -q; fi
 git -C $S/repo checkout -q --detach $(git -C /repo rev-parse HEAD) 2>/dev/null
 git -C $S/repo checkout -q -- . ; git -C $S/repo clean -fdq -e target
 if ! git -C $S/repo apply "$PATCH"; then echo "PATCH-DOES-NOT-APPLY"; exit 3; fi
-rsync -a --delete --exclude .target --exclude .runs --exclude witness --exclude .git /verif/ $S/verif/
+# committed state of /verif only (so that edits in progress do not disturb a running trial)
+mkdir -p $S/verif && find $S/verif -mindepth 1 -maxdepth 1 ! -name .target ! -name .runs ! -name witness -exec rm -rf {} + && git -C /verif archive HEAD | tar -x -C $S/verif
 cd $S/verif
 for C in "$@"; do
   VERIF_REPO=$S/repo VERIF_TARGET=$S/target ./check $C --tier ${TIER:-quick} --seed ${SEED:-1} 2>&1 | grep -v "^KNOWN" | cut -c1-300 | head -${LINES_MAX:-12}
